@@ -105,7 +105,15 @@ fn wait_for_child_done(fds: &[c_int], child_pid: pid_t) -> i32 {
                 // Child closed pipe without sending a byte - get the process exit_status
                 let mut status: libc::c_int = -1i32;
                 libc::waitpid(child_pid, &mut status, 0);
-                libc::WEXITSTATUS(status)
+                if libc::WIFEXITED(status) {
+                    libc::WEXITSTATUS(status)
+                } else if libc::WIFSIGNALED(status) {
+                    // The child was killed by a signal (e.g. a crash or the OOM killer), so the
+                    // exit status bits are zero. Report failure the way a shell would.
+                    128 + libc::WTERMSIG(status)
+                } else {
+                    1
+                }
             }
         }
     }
